@@ -141,7 +141,7 @@ func (in *Interp) callValue(th *Thread, fnv Value, args []Value, retTo ssa.Value
 
 var initWhitelist = map[string]bool{
 	"io": true, "io/fs": true, "internal/oserror": true, "path": true, "path/filepath": true,
-	"unicode/utf8": true, "bytes": true,
+	"unicode/utf8": true, "bytes": true, "io/ioutil": true,
 }
 
 func (in *Interp) allowInit(p *ssa.Package) bool {
